@@ -107,3 +107,19 @@ func init() {
 		ruleGRDrmw(w, r, lr)
 	})
 }
+
+func init() {
+	register("C09", "text and hybrid ranking follow the BM25 and fusion formulas on current data", func(w *World, r *Report) {
+		ruleGRDstats(w, r)
+		ruleGRDfusion(w, r)
+		ruleGRDorder(w, r)
+		ruleSIB1(w, r)
+	})
+	register("C15", "memory decay and reinforcement obey their stated laws", func(w *World, r *Report) {
+		ruleTBLmodels(w, r)
+		ruleSIB3(w, r)
+		ruleGRDreinforce(w, r)
+		lr := w.lockAnalysis()
+		ruleGRDrmw(w, r, lr)
+	})
+}
